@@ -150,6 +150,8 @@ struct oscore_association_t {
   coap_bin_const_t *partial_iv;
   coap_tick_t last_seen;
   uint8_t is_observe;
+  uint8_t is_client; /**< 1 if set up for a request sent from this end
+                          (nonce, aad and partial_iv are this end's own) */
 };
 
 /**
